@@ -123,6 +123,10 @@ func (ft *FakeTarget) serveProbe(rw http.ResponseWriter, r *http.Request) {
 }
 
 func (ft *FakeTarget) serveRequest(rw http.ResponseWriter, r *http.Request) {
+	if r.Header.Get("X-Verif-Echo") != "" {
+		ft.serveEcho(rw, r)
+		return
+	}
 	rid := r.Header.Get("X-Verif-Rid")
 	kind := r.Header.Get("X-Verif-Kind")
 	hold, _ := strconv.Atoi(r.Header.Get("X-Verif-Hold"))
